@@ -69,10 +69,12 @@ def r5_fix(path, res, unit):
     return changed
 
 
-def build_and_run(unit_name, canary=False, rlimit=None, seed=None, suffix='', repo=None):
+def build_and_run(unit_name, canary=False, rlimit=None, seed=None, suffix='', repo=None, subdir=''):
     unit = Unit(unit_name, repo) if repo else Unit(unit_name)
     unit.build(canary=canary)
-    path = os.path.join(BUILD, unit_name + suffix + ('_canary' if canary else '') + '.rs')
+    # each solver configuration of the thorough tier builds in its own directory (same file stem = same crate name)
+    os.makedirs(os.path.join(BUILD, subdir), exist_ok=True)
+    path = os.path.join(BUILD, subdir, unit_name + suffix + ('_canary' if canary else '') + '.rs')
     unit.emit(path)
     res = None
     r5_rounds = 0
